@@ -3,6 +3,7 @@ package main
 import (
 	"fmt"
 	"go/types"
+	"sort"
 	"strings"
 
 	"golang.org/x/tools/go/ssa"
@@ -345,6 +346,57 @@ func checkC07(p *Prog, r *Report) {
 		(strings.HasSuffix(samt.Name, ".SpendableCoins") || strings.HasSuffix(samt.Name, ".SpendableCoin"))
 	r.Check(okAmt, kp("ORIGIN", FuncName(bfn)+"#amount=spendable"), "the amount is a spendable-balance read of the sender itself (table of reads bank's SendCoins will accept: SpendableCoins/SpendableCoin)", p.Pos(send.Pos()),
 		"amount ≡ SpendableCoins(ctx, sender)", fmt.Sprintf("amount = %v — a total-balance read makes bank reject the whole send whenever part of the balance is locked (vesting account at the burn address), leaving every spendable coin there", samt))
+	// the send is skipped only when there is nothing to send (or the address handed in does not parse): every other condition
+	// on the way to the send — a bank switch consulted first, a threshold, a height — leaves spendable coins at the address
+	{
+		var foreign []string
+		for _, a := range sendV.Cond.Atoms() {
+			t := a.Term
+			if t == nil {
+				continue
+			}
+			// does the condition depend on this atom at all?
+			if Entails(fAnd(sendV.Cond, a), fFalse) || Entails(fAnd(sendV.Cond, fNot(a)), fFalse) {
+				// the atom has a forced polarity on the way to the send: it is a real condition
+			} else {
+				continue
+			}
+			// allowed: the amount datum under Coins' own predicates (Empty, IsZero, Len, len()) and the result of parsing the address
+			// handed in, compared with constants; anything else consulted on the way (another keeper call, a parameter, the
+			// block height) is a foreign condition
+			allowed := true
+			var walk func(x *Term)
+			walk = func(x *Term) {
+				if x == nil || x.Eq(samt) {
+					return
+				}
+				switch x.Op {
+				case "call":
+					if !strings.HasPrefix(x.Name, "(sdk/types.Coins).") && x.Name != "builtin:len" && x.Name != "sdk/types.AccAddressFromBech32" {
+						allowed = false
+					}
+				case "const", "eq", "lt", "binop", "unop", "res":
+				case "param":
+					if !(okS && x.Name == pf) {
+						allowed = false
+					}
+				default:
+					allowed = false
+				}
+				for _, y := range x.Args {
+					walk(y)
+				}
+			}
+			walk(t)
+			if allowed {
+				continue
+			}
+			foreign = append(foreign, clip(a.String(), 100))
+		}
+		sort.Strings(foreign)
+		r.Check(len(foreign) == 0, kp("GUARD", FuncName(bfn)+"#send-skipped-only-when-empty"), "the sweep is skipped only when the spendable amount is empty (or the configured address does not parse): no other condition stands between the end-blocker and the send", p.Pos(send.Pos()),
+			"conditions on the way to the send: "+clip(sendV.Cond.String(), 200), "the send is reached only if "+strings.Join(foreign, " and ")+" has the required value: when it does not, everything spendable stays at the burn address (and the error, if any, is only logged by the end-blocker)")
+	}
 	// burn dominated by send success
 	okOrder := false
 	for _, a := range burnV.Cond.Atoms() {
